@@ -30,9 +30,33 @@ def _known_items(ex, st, seq, node):
     if seq.k == "conc" and isinstance(seq.z, (list, tuple)):
         return [lift_conc(ctx, mk_conc(x), node) for x in seq.z]
     if _is_list(seq):
-        ln = z3.simplify(ctx.field_array(st, "len", AII)[seq.z])
-        if z3.is_int_value(ln) and 0 <= ln.as_long() <= 64:
+        lt = ctx.field_array(st, "len", AII)[seq.z]
+        ln = z3.simplify(ctx.sel(ctx.field_array(st, "len", AII), seq.z))
+        if not z3.is_int_value(ln):
+            ln = _implied_value(ctx, st, lt)
+            if ln is not None:
+                ctx.assume(st, lt == ln)
+        if ln is not None and z3.is_int_value(ln) and 0 <= ln.as_long() <= 64:
             return [ex.load_elem(st, seq, z3.IntVal(i), node) for i in range(ln.as_long())]
+    return None
+
+
+def _implied_value(ctx, st, term):
+    """The integer literal the term is forced to by the facts and the path condition, if a quick solver query finds one
+    (used only to decide whether a sequence has a fixed length; a wrong 'no' just means the general, symbolic treatment)."""
+    s = z3.Solver()
+    s.set("timeout", 500)
+    s.set("smt.mbqi", False)
+    s.add(*ctx.facts)
+    s.add(*st.pc)
+    if s.check() != z3.sat:
+        return None
+    v = s.model().eval(term, model_completion=True)
+    if not z3.is_int_value(v):
+        return None
+    s.add(term != v)
+    if s.check() == z3.unsat:
+        return v
     return None
 
 
@@ -117,6 +141,17 @@ def install(Exec, Runner):
         lens = ctx.field_array(st, "len", AII)
         k = ctx.fresh("ck")
         srcs = None
+
+        def direct(bs, lst):
+            # element k of lst, 0 <= k < len by construction: no index obligation, no negative-index normalisation
+            v = ctx.field_array(bs, "elem", AIA)[lst.z][k]
+            sub = (lst.x or "list:int").split(":", 1)[1] if ":" in (lst.x or "") else "int"
+            if sub == "int":
+                return mk_int(v)
+            if sub == "bool":
+                return S.mk_bool(v != 0)
+            return mk_ref(v, sub)
+
         if isinstance(it, ast.Call) and isinstance(it.func, ast.Name) and it.func.id == "zip" and "zip" not in st.env:
             srcs = [self.ev(st, a) for a in it.args]
             if not all(_is_list(x) for x in srcs):
@@ -126,7 +161,7 @@ def install(Exec, Runner):
                 n = z3.If(lens[x.z] < n, lens[x.z], n)
             for x in srcs:
                 ctx.assume(st, lens[x.z] >= 0)
-            mkitem = lambda bs: mk_tuple([self.load_elem(bs, x, k, e) for x in srcs])
+            mkitem = lambda bs: mk_tuple([direct(bs, x) for x in srcs])
         elif isinstance(it, ast.Call) and isinstance(it.func, ast.Name) and it.func.id == "range" and "range" not in st.env and len(it.args) == 1:
             n0 = as_int(ctx, st, self.ev(st, it.args[0]), e)
             n = z3.If(n0 < 0, 0, n0)
@@ -137,7 +172,7 @@ def install(Exec, Runner):
                 raise Unsupported("comprehension over %s" % src.k, e)
             n = lens[src.z]
             ctx.assume(st, n >= 0)
-            mkitem = lambda bs: self.load_elem(bs, src, k, e)
+            mkitem = lambda bs: direct(bs, src)
         body = st.fork(z3.And(k >= 0, k < n))
         before_n, before_alloc = ctx.n, len(ctx.alloc_refs)
         b = _Bind(body)
